@@ -40,7 +40,10 @@ def run(ctx):
         "seeded random byte mutants of each of them and random strings; coverage-guided fuzzing is not used",
         "linear time is judged on the specification's scaling families only, at doubling sizes from 4 KiB to 256 KiB (1 MiB in the "
         "thorough tier): per-call time (min of 3/5 samples, collector off during a sample) on the thread CPU clock and the wall "
-        "clock; alarm = growth > 3.2x per doubling on two consecutive doublings on both clocks, confirmed by a second measurement",
+        "clock; alarm = growth > 3.2x per doubling over the LAST THREE doublings of a series (> 3.2^3 = 32.8x over an 8x size "
+        "range, each doubling > 2^1.3) on both clocks, confirmed by a second measurement (a quadratic decoder shows 64x; two "
+        "doublings anywhere are not enough: linear decoders that recurse once per nesting level show a genuine exponent of "
+        "1.4-1.6 between 4 and 64 KiB, where the stack outgrows the caches)",
         "a stall is a decoder call that does not return within 20 s (inputs are at most 70 KB) or a stream decoder that returns "
         "more values than its finite input can hold",
         "JOSE objects are produced by the library's own Sign/Encrypt (plus two RFC 7516 JSON forms it cannot produce, written with "
@@ -111,7 +114,8 @@ def run(ctx):
                 exps = [round(min(p.get("exp_wall", 0), p.get("exp_cpu", 0)), 2) for p in pts if p.get("measurable")]
                 growth["%s/%s" % (fam, dec)] = {
                     "sizes": [p["bytes"] for p in pts], "per_call_us": [round(p["wall_us"], 1) for p in pts],
-                    "growth_exponents": exps}
+                    "growth_exponents": exps, "last_three_doublings": round(sum(exps[-3:]), 2) if len(exps) >= 3 else None,
+                    "alarm_above": 5.03}
     if not decoders:
         raise vlib.Broken("the mutate replayer reported no decoder calls")
     if not ctx.fail_results:
